@@ -22,7 +22,6 @@ import (
 	"time"
 
 	"github.com/iden3/go-iden3-core/v2/w3c"
-	mt "github.com/iden3/go-merkletree-sql/v2"
 	"github.com/iden3/go-schema-processor/v2/merklize"
 	"github.com/iden3/go-schema-processor/v2/verifiable"
 
@@ -52,6 +51,7 @@ type obs struct {
 	mz        *Node
 	root      string
 	mzErr     string
+	refOK     bool // MerklizeJSONLD(original minus proof) succeeded (valid stream)
 }
 
 type caseRec struct {
@@ -314,6 +314,7 @@ func (d *drv) credCase(in *Input, rep *common.Report) *caseRec {
 	}
 	// O1: root of the struct view == root of the original document minus proof
 	ref, rerr := d.refRoot(raw)
+	o.refOK = rerr == nil
 	switch {
 	case rerr != nil && o.mzErr != "":
 		rep.Count("cred:valid:both-merklizations-fail")
@@ -473,10 +474,12 @@ func renum(lit string) (string, bool) {
 	return string(out), true
 }
 
+// mtpNorm: verifiable.decodeMTP (the guarded decoder in front of merkletree.Proof's
+// codec) followed by json.Marshal of the proof.
 func mtpNorm(n *Node) (out *Node, ok bool) {
 	if pv := guard(func() {
-		var p mt.Proof
-		if err := json.Unmarshal(n.Bytes(), &p); err != nil {
+		p, err := verifiable.VerifDecodeMTP(n.Bytes())
+		if err != nil || p == nil {
 			return
 		}
 		b, err := json.Marshal(p)
@@ -701,7 +704,7 @@ func (d *drv) merge(jobs []*job) (okRoots, nValid int) {
 		o := j.rec.o
 		if j.isValid {
 			nValid++
-			if o.root != "" {
+			if o.refOK {
 				okRoots++
 			} else if os.Getenv("C14_DEBUG") != "" {
 				fmt.Fprintf(os.Stderr, "no root: decode=%q enc=%q mz=%q\n%s\n", o.decodeErr, o.encErr, o.mzErr, j.in.Doc)
@@ -844,12 +847,12 @@ func Run(cfg *common.Config) (*common.Report, error) {
 	t1 := time.Now()
 	okRoots, nv := d.merge(jobs)
 	if okRoots*10 < nv*9 {
-		return nil, fmt.Errorf("only %d of %d supported-shape documents merklize: generator or contexts are broken", okRoots, nv)
+		return nil, fmt.Errorf("only %d of %d supported-shape documents merklize with MerklizeJSONLD: generator or contexts are broken", okRoots, nv)
 	}
 	rep.Exhaustive = false
 	rep.Notes = append(rep.Notes,
 		"encoding/json's reflection semantics are modelled (coq/Codec/Model.v) and compared per run, not verified",
-		fmt.Sprintf("%d of %d supported-shape documents merklize successfully on both paths", okRoots, nv))
+		fmt.Sprintf("%d of %d supported-shape documents merklize successfully (reference path)", okRoots, nv))
 	err := d.writeShards()
 	if os.Getenv("C14_DEBUG") != "" {
 		fmt.Fprintf(os.Stderr, "timing: generate %v, run %v, shards %v\n", t0.Sub(tStart), t1.Sub(t0), time.Since(t1))
@@ -993,7 +996,8 @@ func (d *drv) oddifyDID(g *gen, doc *Node) string {
 		m.Del("global")
 		gi := g.gistInfo()
 		gi.Del("proof")
-		gi.Set("proof", g.pick2(Str("x"), Obj().Set("type", Str("T")), Obj().Set("existence", Bool(true)).Set("siblings", Arr(Str("bad"))), Null(), Obj().Set("existence", Bool(false)).Set("siblings", Arr()).Set("type", Num("1"))))
+		gi.Set("proof", g.pick2(Str("x"), Obj().Set("type", Str("T")), Obj().Set("existence", Bool(true)).Set("siblings", Arr(Str("bad"))), Null(), Obj().Set("existence", Bool(false)).Set("siblings", Arr()).Set("type", Num("1")),
+			Obj().Set("existence", Bool(true)).Set("siblings", Arr(Null())).Set("type", Str("T")), g.manySiblings(241).Set("type", Str("T"))))
 		m.Set("global", gi)
 		set("verificationMethod", Arr(m))
 		return "gist-proof-shape"
